@@ -43,6 +43,23 @@ def base_jobs(tier, mm):
             job["opts"]["method"] = None
             job["ini_extra"] = "[accounting_methods]\n" + "".join(f"{y} = {m}\n" for y, m in sched)
         jobs.append(job)
+    # feature-based methods on assets whose lots sit on the same sheet rows (the IN table starts at row 3 of every sheet)
+    # with different price / time order: what a sale takes must not depend on the other assets of the run
+    n_c = 6 if tier == "quick" else 60
+    for k in range(n_c):
+        c = ("us", "generic")[k % 2]
+        inp = l6.gen_input(rng, "lots", n_assets=3)
+        f, t, label = l6.gen_window(rng, inp, rng.choice(["none", "none", "from", "to"]))
+        jobs.append({"country": c, "opts": {"method": ("hifo", "lofo", "lifo")[k % 3], "lang": "en", "from": f, "to": t}, "inp": inp,
+                     "window": label, "kind": "base", "supported": True, "hashseed": 0, "dump": "full", "group": n + k})
+    # lots acquired at distinct instants inside one second: the order of their rows must not matter
+    n_s = 6 if tier == "quick" else 60
+    for k in range(n_s):
+        c = ("us", "generic", "us", "generic", "es", "ie")[k % 6]
+        inp = l6.gen_input(rng, "subsecond", n_assets=2)
+        ms = [m for m in ("lifo", "hifo", "lofo") if m in mm[c]["methods"]]
+        jobs.append({"country": c, "opts": {"method": ms[k % len(ms)] if ms else None, "lang": mm[c]["langs"][0], "from": None, "to": None},
+                     "inp": inp, "window": "none", "kind": "base", "supported": True, "hashseed": 0, "dump": "full", "group": n + n_c + k})
     return jobs, rng
 
 
@@ -265,7 +282,8 @@ def run(tier, build, replay=None):
         "evaluations": n_runs,
         "distinct_nontrivial": len(nontrivial),
         "rule": "pairs (base run, variant run) of real subprocess runs on generated valid multi-asset inputs (2-3 assets, all five entry points, "
-                "methods, languages, windows, mixed schedules); variants: identical rerun, PYTHONHASHSEED 1 and a seed-derived value, dirty output "
+                "methods, languages, windows, mixed schedules; plus hifo/lofo/lifo runs on three assets whose lots share sheet rows with different "
+                "price order, and lots with distinct timestamps inside one second); variants: identical rerun, PYTHONHASHSEED 1 and a seed-derived value, dirty output "
                 "directory, permuted rows/tables/sheets, -a <asset> for every asset, asset alone in file and configuration; every pair is non-trivial",
         "samples": [{"cmd": c16.describe(b), "variants": [v["kind"] for v in vs]} for b, vs in groups[:2]],
         "traces_validated_against_impl": n_runs,
